@@ -263,6 +263,7 @@ func Main(spec *Spec) {
 		noEvid  = flag.Bool("no-evidence", false, "do not write the evidence file")
 		params  = paramFlag{}
 		replayN = flag.Int("replay-times", 1, "replay repetitions")
+		evOut   = flag.String("evidence-out", "", "write the evidence to this file instead of evidence/<prop>.json")
 	)
 	flag.Var(params, "p", "harness parameter k=v")
 	flag.Parse()
@@ -291,8 +292,11 @@ func Main(spec *Spec) {
 	if *worker >= 0 {
 		os.Exit(runWorker(spec, *prop, *tier, *worker, *n, *seed, *out, *outset, *dl, params))
 	}
+	evidenceOut = *evOut
 	os.Exit(coordinate(spec, *prop, *tier, *n, *seed, params, !*noEvid))
 }
+
+var evidenceOut string
 
 func flagSet(name string) bool {
 	set := false
@@ -412,30 +416,48 @@ func runReplay(spec *Spec, prop, tier, path string, times int, params map[string
 	return rc
 }
 
-// KnownFinding is one line of known_findings.jsonl.
+// KnownFinding is one line of known_findings.txt:
+//
+//	known: property=C13 sig=<signature> :: <what fails>
+//	fixed: property=C08 <commit> sig=<signature> :: <what failed>
+//
+// Only "known" lines suppress anything, and only their exact signature.
 type KnownFinding struct {
-	Status    string `json:"status"` // "known" or "fixed"
-	Property  string `json:"property"`
-	Signature string `json:"signature"`
-	What      string `json:"what"`
-	Commit    string `json:"commit,omitempty"`
+	Status    string
+	Property  string
+	Signature string
+	What      string
+	Commit    string
 }
 
 func loadKnown() []KnownFinding {
 	var out []KnownFinding
-	b, err := os.ReadFile(filepath.Join(VerifDir(), "known_findings.jsonl"))
+	b, err := os.ReadFile(filepath.Join(VerifDir(), "known_findings.txt"))
 	if err != nil {
 		return nil
 	}
-	for _, l := range bytes.Split(b, []byte("\n")) {
-		l = bytes.TrimSpace(l)
-		if len(l) == 0 || l[0] == '#' {
+	for _, l := range strings.Split(string(b), "\n") {
+		l = strings.TrimSpace(l)
+		if l == "" || l[0] == '#' {
 			continue
 		}
-		var k KnownFinding
-		if json.Unmarshal(l, &k) == nil {
-			out = append(out, k)
+		status, rest, ok := strings.Cut(l, ":")
+		if !ok || (status != "known" && status != "fixed") {
+			continue
 		}
+		head, what, _ := strings.Cut(rest, " :: ")
+		k := KnownFinding{Status: status, What: strings.TrimSpace(what)}
+		for _, f := range strings.Fields(head) {
+			switch {
+			case strings.HasPrefix(f, "property="):
+				k.Property = f[len("property="):]
+			case strings.HasPrefix(f, "sig="):
+				k.Signature = f[len("sig="):]
+			default:
+				k.Commit = f
+			}
+		}
+		out = append(out, k)
 	}
 	return out
 }
@@ -667,7 +689,11 @@ func coordinate(spec *Spec, prop, tier string, n int, seed int64, params map[str
 		}
 		b, _ := json.MarshalIndent(ev, "", " ")
 		os.MkdirAll(filepath.Join(VerifDir(), "evidence"), 0o755)
-		os.WriteFile(filepath.Join(VerifDir(), "evidence", prop+".json"), b, 0o644)
+		evPath := filepath.Join(VerifDir(), "evidence", prop+".json")
+		if evidenceOut != "" {
+			evPath = evidenceOut
+		}
+		os.WriteFile(evPath, b, 0o644)
 	}
 	fmt.Printf("%s %s %s: evaluations=%d nontrivial=%d distinct_outcomes=%d exhaustive=%v wall=%.1fs violations=%d known=%d",
 		spec.Name, prop, tier, tot.Evals, tot.Nontrivial, len(outcomes), exhaustive, wall, len(unknown), nKnown)
